@@ -58,6 +58,7 @@ package fastforward
 //@     invariant f != nil && qCtx != nil && 0 <= i && i <= concurrent && concurrent == clamp13(f.args.Concurrent) && len(us) > 0 && 0 <= r && r < len(us) && queryPayload != nil && resChan != nil && done != nil
 //@     invariant forall k int :: 0 <= k && k < len(us) ==> us[k] != nil
 //@     entry i == 0
+//@     exit i == concurrent
 //@     each iter_calls(copyPayload) == 1 && iter_arg(copyPayload, 0, 0) == queryPayload && iter_calls(worker) == 1
 //@     each u == us[(r + (i - 1)) % len(us)]
 //@     decreases concurrent - i
